@@ -3,7 +3,10 @@ from __future__ import annotations
 
 import gen_ctx
 
-ALIAS_SHAPES = ["a b", "a", "n k", "*g a", "a c=a+b", "2 a", "b a+1", "... k"]
+ALIAS_SHAPES = ["a b", "a", "n k", "*g a", "a c=a+b", "2 a", "b a+1", "... k", "m=3 a"]
+# a second annotation that LOOKS like another one — same class, same axis names, a different expression behind a named axis — is an
+# annotation of its own: whatever is keyed by annotations (typing's cache of Annotated[...], an lru_cache) must keep them apart
+LOOKALIKE = {"a c=a+b": "a c=a*b", "m=3 a": "m=4 a"}
 
 
 def tensor_val(rng, shape, lib=None):
@@ -22,6 +25,10 @@ def gen_hist(rng, length: int) -> str:
     steps = []
     n_alias = rng.randint(2, 3)
     shapes = rng.sample(ALIAS_SHAPES, n_alias)
+    if rng.random() < 0.4:
+        twins = [LOOKALIKE[x] for x in shapes if x in LOOKALIKE]
+        shapes.append(rng.choice(twins) if twins else rng.choice(shapes))   # (or the very same string once more: an equal-looking, distinct object)
+        n_alias += 1
     for i, sh in enumerate(shapes):
         # (the constructor flag optional=True on a shared annotation object: only the hint decides, and the object
         #  must come out of every decoration unchanged)
